@@ -16,3 +16,31 @@ func (NoMetrics) GetHttpHandlers() map[string]http.Handler                      
 func (NoMetrics) EmitCounter(name string, value interface{}, tags ...metrics.T) error   { return nil }
 func (NoMetrics) EmitGauge(name string, value interface{}, tags ...metrics.T) error     { return nil }
 func (NoMetrics) EmitHistogram(name string, value interface{}, tags ...metrics.T) error { return nil }
+
+// YieldMetrics is a metrics client whose every emission is a labelled scheduling point
+// ("m:"+metric name): the metric emissions inside the code under test become gate points at which
+// native replays can force the recorded schedule, without any hook in the repository.
+type YieldMetrics struct {
+	Yield func(point string)
+}
+
+func (YieldMetrics) GetGrpcServerOption() []grpc.ServerOption { return nil }
+func (YieldMetrics) GetHttpHandlers() map[string]http.Handler { return nil }
+func (m YieldMetrics) EmitCounter(name string, value interface{}, tags ...metrics.T) error {
+	if m.Yield != nil {
+		m.Yield("m:" + name)
+	}
+	return nil
+}
+func (m YieldMetrics) EmitGauge(name string, value interface{}, tags ...metrics.T) error {
+	if m.Yield != nil {
+		m.Yield("m:" + name)
+	}
+	return nil
+}
+func (m YieldMetrics) EmitHistogram(name string, value interface{}, tags ...metrics.T) error {
+	if m.Yield != nil {
+		m.Yield("m:" + name)
+	}
+	return nil
+}
